@@ -31,6 +31,8 @@ type Inner struct {
 
 func (Inner) InnerM() string { return "inner.InnerM" }
 
+type c06Namer interface{ InnerM() string }
+
 type PInner struct{ PName string }
 
 type Outer struct {
@@ -46,6 +48,7 @@ type Outer struct {
 	P      *Inner
 	NilP   *Inner
 	I      interface{}
+	NI     c06Namer // a non-empty interface type holding the same Inner: its fields and other methods are reachable all the same
 	NilI   interface{}
 	secret string
 	Arr    [2]string
@@ -83,7 +86,7 @@ func mkOuter(withPInner bool) Outer {
 	in := Inner{Name: "inner.Name", Deep: "inner.Deep", hidden: 1, Core: core}
 	o := Outer{Name: "outer.Name", Age: 42, Inner: in, Tags: append(make([]string, 0, 16), "t0", "t1", "t2", "HIDDEN", "HIDDEN")[:3], // spare capacity: nothing behind len may be reachable
 		M: map[string]int{"a": 1, "zero": 0},
-		P: &Inner{Name: "inner.Name", Deep: "inner.Deep", hidden: 1, Core: core}, I: in, secret: "secret", Arr: [2]string{"a0", "a1"}, S: "hi",
+		P: &Inner{Name: "inner.Name", Deep: "inner.Deep", hidden: 1, Core: core}, I: in, NI: in, secret: "secret", Arr: [2]string{"a0", "a1"}, S: "hi",
 		MN: map[NamedKey]string{"k": "mn.k"}, MI: map[int]string{1: "mi.1"}}
 	if withPInner {
 		o.PInner = &PInner{PName: "pinner.PName"}
